@@ -10,7 +10,7 @@ from pyproj import Proj
 from .common import fhex, ints
 
 PROP_FILE = "Properties/C08.v"
-GEN = ["GenC08"]
+GEN = ["GenC08", "GenC08imp"]
 RUN_FILES = ["Model/C08_run.v", "Model/C08_rungen.v"]
 
 NAN = float("nan")
@@ -995,7 +995,7 @@ def run(ctx):
             ctx.add_failure(key, what, {"oracle": "fornav", "case": case})
         if "error" not in o and "error" not in o["oneshot"] and "error" not in o["ws"]:
             safe_append(ctx, F, "fornav_accumulate", coq_fcase, case, o, tab or {})
-    D, DR, BL, RP = [], [], [], []
+    D, DR, BL, RP, IT = [], [], [], [], []
     for case, o in zip(sc_cases, obs["scene"]):
         fails, info = judge_scene(case, o)
         ok = "error" not in o
@@ -1050,6 +1050,12 @@ def run(ctx):
                 ctx.broken.append(("correspondence:rows_per_scan", "_get_rows_per_scan(%r) with attrs %r raised %s" % (kwv, attr, got)))
             else:
                 RP.append("(%s, %s, %d, %s)" % (oz(kwv), oz(attr), nrows, oz(got)))
+        for raw in o.get("tasks_raw", []):
+            if not raw["ok"]:
+                ctx.broken.append(("correspondence:dask_tasks", "a task tuple does not carry _delayed_fornav / the target area / the input name"))
+            IT.append("(%s, %s, [%s], [%s])" % ("[" + "; ".join(map(str, case["out_chunks"][0])) + "]", "[" + "; ".join(map(str, case["out_chunks"][1])) + "]",
+                                             "; ".join("(%d, %d, %d)" % tuple(b) for b in raw["blocks"]),
+                                             "; ".join("(%d, %d, %d, (%d, %d), (%d, %d), (%d, %d), %d)" % tuple(it) for it in raw["items"])))
         blocks = sorted(set((t[1], t[2], t[3], t[4], t[5], t[6]) for t in o["tasks"]))
         nin = len(o["placeholders"])
         full = len(o["tasks"]) == nin * len(blocks) and sorted(set(t[0] for t in o["tasks"])) == list(range(nin))
@@ -1071,8 +1077,13 @@ def run(ctx):
                       % ";\n".join(DR), DR, "dask_placeholder"))
     if RP:
         RP = sorted(set(RP))
-        texts.append(("c08_rps", HDR + "Definition cases : list (option Z * option Z * Z * option Z) := [%s].\nEval vm_compute in (bad chk_rps cases).\n"
-                      % ";\n".join(RP), RP, "rows_per_scan"))
+        texts.append(("c08_rps", HDR + "From PR Require Import Model.C08_rungen.\nDefinition cases : list (option Z * option Z * Z * option Z) := [%s].\n"
+                      "Eval vm_compute in (bad (fun c => chk_rps c && chk_imp_rps c) cases).\n" % ";\n".join(RP), RP, "rows_per_scan"))
+    if IT:
+        IT = sorted(set(IT), key=len)
+        for i, sh in enumerate(shard(IT, 2)):
+            texts.append(("c08_imp_tasks_%d" % i, HDR + "From PR Require Import Model.C08_rungen.\nDefinition cases : list (list Z * list Z * list (Z * Z * Z) * list task_item) := [%s].\n"
+                          "Eval vm_compute in (bad chk_imp_tasks cases).\n" % ";\n".join(sh), sh, "dask_tasks_generated"))
     if BL:
         texts.append(("c08_blocks", HDR + "Definition cases : list (list Z * list Z * list (Z * Z * (Z * Z) * (Z * Z))) := [%s].\nEval vm_compute in (bad chk_blocks cases).\n"
                       % ";\n".join(BL), BL, "dask_blocks"))
